@@ -171,6 +171,12 @@ impl HardwareBreakpoint {
         let mut state = HardwareDebugState::current(tracee_ctl.proc_pid())?;
         let register = self.register.expect("should exist");
         state.dr7.set_dr(register, false, false);
+        // reset the length field of the freed slot: the kernel validates a new address
+        // against the slot's current length, a stale 8-byte length would make the next
+        // PTRACE_POKEUSER of a 4-aligned address fail with EINVAL
+        state
+            .dr7
+            .configure_bp(register, BreakCondition::DataWrites, BreakSize::Bytes1);
         tracee_ctl.tracee_iter().for_each(|t| {
             if let Err(e) = state.sync(t.pid) {
                 error!("remove hardware breakpoint for thread {}: {e}", t.pid)
